@@ -1,9 +1,10 @@
 (* Properties/C11.v — Chow-Liu fitting returns a maximum-mutual-information tree with exact CPTs.
    Model: Model/ChowLiu.v (estimate_priors_joints, compute_clt_parameters, predecessor vectors),
    instance and runner: Model/ChowLiuRun.v.  SciPy's spanning-tree routine is not modelled: its output
-   is checked on every run by the certificate whose soundness is C11_optimal_certificate_partial. *)
+   is checked on every run by the certificates whose soundness is C11_optimal_certificate (every n) and
+   C11_optimal_certificate_bruteforce (n <= 7). *)
 From Coq Require Import List Arith ZArith QArith Qcanon Bool.
-From DV Require Import Model.Core Model.Clt Model.QcInst Model.ChowLiu Model.ChowLiuRun
+From DV Require Import Model.MstCert Proofs.MstCertFacts Model.Core Model.Clt Model.QcInst Model.ChowLiu Model.ChowLiuRun
   Proofs.ChowLiuFacts Proofs.ChowLiuTree.
 Import ListNotations.
 Local Open Scope nat_scope.
@@ -91,18 +92,30 @@ Theorem C11_brute_is_max : forall (w : nat -> nat -> Z) n root, root < n ->
             (exists p, is_tree n root p = true /\ weight w p = m).
 Proof. exact brute_max_is_max. Qed.
 
-(* PARTIAL (optimality): proved = soundness of the per-run certificate for every n — an accepted
-   predecessor vector is a spanning tree whose weight is within `slack` of every spanning tree's.
-   Missing = that the implementation's tree always passes: maximum_spanning_tree delegates to SciPy,
-   which is not modelled; the certificate is evaluated on every generated case with n <= 7
-   (n^(n-1) candidates), and for 8 <= n <= 14 the tree is only compared with the unproved Prim
-   reference `prim_weight`.  The weights are the implementation's float32 MI matrix (exact integers
-   after a common scaling); that this matrix is the mutual information is tied in Python only. *)
-Theorem C11_optimal_certificate_partial : forall (w : nat -> nat -> Z) n root p slack,
+(* Optimality, brute-force certificate (n <= 7): an accepted predecessor vector is a spanning tree whose weight is
+   within `slack` of every spanning tree's (the maximum is taken over all n^(n-1) parent vectors). *)
+Theorem C11_optimal_certificate_bruteforce : forall (w : nat -> nat -> Z) n root p slack,
   opt_cert w n root p slack = true ->
   is_tree n root p = true /\
   forall p', is_tree n root p' = true -> (weight w p' <= weight w p + slack)%Z.
 Proof. exact opt_cert_sound. Qed.
+
+(* Optimality, cycle-property certificate (EVERY n, polynomial): if p is a rooted spanning tree in which every
+   ordered pair (u, v) is connected by tree edges of weight >= w u v - eps, then every rooted spanning tree weighs
+   at most weight p + (n-1) * eps.  Proof: for every threshold s the classes "connected by tree edges >= s"
+   number n - #{tree edges >= s}; a rooted spanning tree has at most n - k edges inside a partition with k
+   classes (each class has a vertex whose predecessor leaves it, or the root); edges of weight >= s + eps lie
+   inside classes; the integer layer-cake identity turns the count dominance into the sum dominance.
+   What stays per run: that the IMPLEMENTATION's tree passes (maximum_spanning_tree delegates to SciPy, which
+   is not modelled) — the certificate is evaluated inside Coq on every generated case, whatever n; the weights
+   are the implementation's float32 MI matrix (exact integers after a common scaling). *)
+Theorem C11_optimal_certificate : forall (w : nat -> nat -> Z) n root p eps,
+  mst_cert w p n root eps = true ->
+  is_tree n root p = true /\
+  forall p', is_tree n root p' = true -> (weight w p' <= weight w p + Z.of_nat (n - 1) * eps)%Z.
+Proof.
+  intros w n root p eps H. split; [exact (cert_tree w n root p eps H) | exact (mst_cert_sound w n root p eps H)].
+Qed.
 
 Print Assumptions C11_cpt_rows_sum_one.
 Print Assumptions C11_cpt_is_conditional.
@@ -114,4 +127,5 @@ Print Assumptions C11_root.
 Print Assumptions C11_tree_spanning.
 Print Assumptions C11_brute_sound.
 Print Assumptions C11_brute_is_max.
-Print Assumptions C11_optimal_certificate_partial.
+Print Assumptions C11_optimal_certificate_bruteforce.
+Print Assumptions C11_optimal_certificate.
